@@ -408,7 +408,7 @@ func errNorm(err error, c Case) string {
 	for _, e := range c.Tree {
 		for _, n := range []string{e.Path, filepath.Base(e.Path), strings.ToValidUTF8(e.Path, "\uFFFD")} {
 			if n != "" && n != "." {
-				s = strings.ReplaceAll(s, n, "<path>")
+				s = replaceWord(s, n, "<path>")
 			}
 		}
 	}
@@ -430,6 +430,29 @@ func errNorm(err error, c Case) string {
 		s = s[:140]
 	}
 	return s
+}
+
+// replaceWord replaces the occurrences of name that are not part of a longer word (a file called
+// "a" must not turn "range" into "r<path>nge").
+func replaceWord(s, name, by string) string {
+	isW := func(c byte) bool {
+		return c >= 'a' && c <= 'z' || c >= 'A' && c <= 'Z' || c >= '0' && c <= '9' || c == '_' || c == '<' || c == '>'
+	}
+	var b strings.Builder
+	for i := 0; i < len(s); {
+		if strings.HasPrefix(s[i:], name) {
+			before := i > 0 && isW(s[i-1]) && isW(name[0])
+			after := i+len(name) < len(s) && isW(s[i+len(name)]) && isW(name[len(name)-1])
+			if !before && !after {
+				b.WriteString(by)
+				i += len(name)
+				continue
+			}
+		}
+		b.WriteByte(s[i])
+		i++
+	}
+	return b.String()
 }
 
 // secondary reports whether an error is only the echo of the peer going away or of a local
